@@ -207,6 +207,26 @@ var c01Bytes = []string{"<div>", "</div>", "<p>", "text words here ", "<a href=\
 	"<frameset>", "<select>", "<plaintext>", "\x00", "\xff\xfe", "<meta charset=\"utf-16\">", "<", "&", "<figure>", "<img src=x>", "</p>", "<font>", "<body>", "</html>", "<li>", "<math>"}
 var c01BytesCore = []int{0, 2, 3, 4, 5, 6, 8, 9, 10, 13, 24, 25}
 
+// ---- sub-space 6: taints on the rich host document -------------------------------------------
+
+var c01HostTaints = []struct {
+	name string
+	f    func(n *html.Node)
+}{
+	{"hidden", func(n *html.Node) { n.Attr = append(n.Attr, html.Attribute{Key: "hidden"}) }},
+	{"display-none", func(n *html.Node) { n.Attr = append(n.Attr, html.Attribute{Key: "style", Val: "display:none"}) }},
+	{"remove-children", func(n *html.Node) {
+		for n.FirstChild != nil {
+			n.RemoveChild(n.FirstChild)
+		}
+	}},
+	{"aria-hidden", func(n *html.Node) { n.Attr = append(n.Attr, html.Attribute{Key: "aria-hidden", Val: "true"}) }},
+	{"no-attrs", func(n *html.Node) { n.Attr = nil }},
+	{"class-sidebar", func(n *html.Node) { n.Attr = append(n.Attr, html.Attribute{Key: "class", Val: "sidebar"}) }},
+	{"display-block", func(n *html.Node) { n.Attr = append(n.Attr, html.Attribute{Key: "style", Val: "display:block"}) }},
+	{"contenteditable", func(n *html.Node) { n.Attr = append(n.Attr, html.Attribute{Key: "contenteditable", Val: "true"}) }},
+}
+
 // ---- enumeration -----------------------------------------------------------------------------
 
 func c01Enumerate(tier string, emit func(*eng.Case)) {
@@ -318,6 +338,26 @@ func c01Enumerate(tier string, emit func(*eng.Case)) {
 		}
 	}
 	rec(0, make([]int, len(dims)), 0)
+	// 6: every element of the rich host document (all rendering paths) made invisible or odd
+	nEl := len(c05Elements(ora.Parse(c05Skel)))
+	nTaint := len(c01HostTaints)
+	for e := 0; e < nEl; e++ {
+		for t := 0; t < nTaint; t++ {
+			emit(&eng.Case{Kind: "host", P: map[string]string{"ops": fmt.Sprintf("%d:%d", e, t), "doc": ""}})
+			emit(&eng.Case{Kind: "host", URL: "http://example.com/a/2", Algo: 1, Flags: 30, P: map[string]string{"ops": fmt.Sprintf("%d:%d", e, t), "doc": ""}})
+			if !thorough && t >= 3 {
+				continue
+			}
+			for e2 := e + 1; e2 < nEl; e2++ {
+				for t2 := 0; t2 < nTaint; t2++ {
+					if !thorough && t2 >= 3 {
+						continue
+					}
+					emit(&eng.Case{Kind: "host", P: map[string]string{"ops": fmt.Sprintf("%d:%d,%d:%d", e, t, e2, t2), "doc": ""}})
+				}
+			}
+		}
+	}
 	// 5: byte strings for ApplyForReader
 	all := make([]int, len(c01Bytes))
 	for i := range all {
@@ -370,6 +410,22 @@ func c01Check(c *eng.Case) *eng.Outcome {
 		pi = eng.Protect(func() { res, err = distiller.ApplyForReader(bytes.NewReader([]byte(c.HTML)), c01Opts(c)) })
 	case "pager":
 		doc := ora.Parse(c.HTML)
+		pi = eng.Protect(func() { res, err = distiller.Apply(doc, c01Opts(c)) })
+	case "host":
+		doc := ora.Parse(c05Skel)
+		els := c05Elements(doc)
+		var d []string
+		for _, op := range strings.Split(c.Get("ops"), ",") {
+			var e, t int
+			fmt.Sscanf(op, "%d:%d", &e, &t)
+			if e >= len(els) || t >= len(c01HostTaints) {
+				o.Skipped = "stale replay"
+				return o
+			}
+			d = append(d, c01HostTaints[t].name+" on <"+els[e].Data+">@"+c05Context(els[e]))
+			c01HostTaints[t].f(els[e])
+		}
+		c.P["doc"] = "host document, " + strings.Join(d, " + ")
 		pi = eng.Protect(func() { res, err = distiller.Apply(doc, c01Opts(c)) })
 	default:
 		tree := parseTreeSpec(c.Get("tree"))
@@ -433,7 +489,7 @@ func init() {
 		DesignRef: "§5 C01",
 		Rule: "five sub-spaces, each complete to its bound. (1) all ordered trees of hand-built nodes with <= 3 (quick) / <= 4 (thorough) nodes over 33 labels and of 4 / 5 nodes over 12 core labels, x every node as root attached (inside document>html>body) and detached, plus the document node and a bare document; " +
 			"(2) every tree of <= 2 / <= 3 nodes x every node x 11 field mutations (empty Data, upper-case tag, zero/wrong DataAtom, svg namespace, empty Attr slice, duplicate/empty attribute keys, Error/Doctype/Raw node types); (3) trees of <= 2 nodes x nil options and 16 URLs (IPv6, userinfo, non-ASCII host, mailto, relative, placeholder literal, escaped slash, ...) x log-flag sets x SkipPagination x algorithm; " +
-			"(4) a pager whose hrefs are scheme x host x path x query x fragment pieces with <= 2 pieces off default (quick) / full product (thorough) x 14 page URLs (case-folding hosts, placeholder literals, escapes) x both algorithms; (5) all ApplyForReader inputs of <= 3 / <= 4 tokens over 32 byte tokens and 4 / 5 over 12 core tokens, with and without URL. " +
+			"(4) a pager whose hrefs are scheme x host x path x query x fragment pieces with <= 2 pieces off default (quick) / full product (thorough) x 14 page URLs (case-folding hosts, placeholder literals, escapes) x both algorithms; (6) every element of the rich host document of C05 (all rendering paths) x 8 taints (hidden, display:none, children removed, aria-hidden, attributes removed, class=sidebar, display:block, contenteditable), singles and pairs (quick: pairs over the first 3 taints); (5) all ApplyForReader inputs of <= 3 / <= 4 tokens over 32 byte tokens and 4 / 5 over 12 core tokens, with and without URL. " +
 			"Oracle: no panic, step budget (2e7 hook events) not exceeded, worker process survives, and the call returns an error or a result whose Node is a div element. Non-trivial = anything but a plain document root with default options.",
 		Enumerate:        c01Enumerate,
 		Check:            c01Check,
